@@ -208,3 +208,31 @@ Proof.
   pose proof (In_dict_get _ _ _ (nz_keys _ _ NZ) H1) as G1.
   pose proof (In_dict_get _ _ _ (nz_keys _ _ NZ) H2) as G2. congruence.
 Qed.
+
+(* the normalised mapping has at most two global, the caller's and the common entries *)
+Lemma normalize_loop_length decls : forall declared (result : dict str) declared' result',
+  normalize_loop decls declared result = Ok (declared', result') -> length result' <= length result + length decls.
+Proof.
+  induction decls as [|[k n] r IH]; cbn [normalize_loop]; intros declared result declared' result' H.
+  - injection H as <- <-. cbn. lia.
+  - destruct (validate_declaration k n declared) as [p'| | |]; try discriminate.
+    apply IH in H. pose proof (length_dict_set p' n result). cbn [length]. lia.
+Qed.
+Lemma add_common_length declared cs : forall result : dict str,
+  length (fold_left (add_common declared) cs result) <= length result + length cs.
+Proof.
+  induction cs as [|c r IH]; cbn [fold_left]; intros result; [cbn; lia|].
+  specialize (IH (add_common declared result c)).
+  assert (length (add_common declared result c) <= S (length result)).
+  { unfold add_common, dict_setdefault. destruct (py_in_str _ _); [lia|]. destruct (dict_has _ _); [lia|].
+    apply length_dict_set. }
+  cbn [length]. lia.
+Qed.
+Lemma normalize_length caller data : normalize caller = Ok data -> length data <= length caller + 17.
+Proof.
+  unfold normalize. destruct (has_key None caller && has_key (Some []) caller)%bool; [discriminate|].
+  destruct (normalize_loop caller [] global_namespaces) as [[declared result]| | |] eqn:EL; try discriminate.
+  intros H. injection H as <-. apply normalize_loop_length in EL.
+  pose proof (add_common_length declared common_namespaces result) as HC.
+  change (length global_namespaces) with 2 in EL. change (length common_namespaces) with 15 in HC. lia.
+Qed.
